@@ -16,6 +16,7 @@ pub enum Error {
     UnsupportedCompressorType,
     UnknownCompressorType,
     SignatureVerification,
+    UnexpectedIssuerCount(u32),
     Other,
 }
 
